@@ -804,3 +804,261 @@ Example ex_reentrant :
     [OpHandle 0 [99;47;43] 0; OpHandle 0 [101;47;35] 1; OpHandle 0 [99;47;35] 2; OpServe 0 [99;47;114]]
   = [NvHandle true; NvHandle true; NvHandle true; NvServe [(0,0); (1,1); (0,2)]%nat].
 Proof. reflexivity. Qed.
+
+(* ====================================================================================
+   Round 8: handlers that register (Handle) and dispatch (Serve) while they are being served.
+   servemux.go ranges over the slice as it was when Serve started: a handler registered during a
+   Serve is not invoked by that Serve, but by every Serve that starts afterwards (also a nested one).
+   ==================================================================================== *)
+
+Section Registering.
+Variable progs : nat -> hprog.
+
+Definition agree (st : muxes) (R : nat -> list (str * nat)) : Prop := forall j, st j = mux_of (R j).
+
+Definition radd_fun (R : nat -> list (str * nat)) (j : nat) (r : str * nat) : nat -> list (str * nat) :=
+  fun k => if Nat.eqb k j then R k ++ [r] else R k.
+
+Lemma radd_fun_ok R j r : radd R j r (radd_fun R j r).
+Proof. intros k. reflexivity. Qed.
+
+Lemma agree_upd st R j r : agree st R -> agree (muxes_upd st j (mux_handle (st j) r)) (radd_fun R j r).
+Proof.
+  intros H k. unfold muxes_upd, radd_fun. destruct (Nat.eqb k j) eqn:E; [|apply H].
+  apply Nat.eqb_eq in E. subst k. rewrite mux_of_snoc, H. reflexivity.
+Qed.
+
+(* what a correct callee guarantees *)
+Definition call_ok (fuel d : nat) (call : muxes -> nat -> str -> list titem * muxes) : Prop :=
+  forall st R j t, agree st R ->
+    exists R', rspec progs fuel R d j t (fst (call st j t)) R' /\ agree (snd (call st j t)) R'.
+
+Lemma run_steps_sound fuel d call : call_ok fuel (S d) call ->
+  forall steps st R, agree st R ->
+    exists R', rsteps progs fuel R d steps (fst (run_steps call d steps st)) R' /\
+               agree (snd (run_steps call d steps st)) R'.
+Proof.
+  intros Hc steps; induction steps as [|[j f h|j t] r IH]; intros st R Ha; cbn [run_steps].
+  - exists R. split; [constructor|exact Ha].
+  - destruct (IH _ _ (agree_upd st R j (f, h) Ha)) as (R2 & Hs & Ha2).
+    destruct (run_steps call d r (muxes_upd st j (mux_handle (st j) (f, h)))) as [tr st'].
+    cbn [fst snd] in *. exists R2. split; [|exact Ha2].
+    eapply RT_handle; [apply is_some_valid | apply radd_fun_ok | exact Hs].
+  - destruct (Hc st R j t Ha) as (R1 & Hs1 & Ha1).
+    destruct (call st j t) as [tr1 st1]. cbn [fst snd] in *.
+    destruct (IH st1 R1 Ha1) as (R2 & Hs2 & Ha2).
+    destruct (run_steps call d r st1) as [tr2 st2]. cbn [fst snd] in *.
+    exists R2. split; [|exact Ha2]. eapply RT_serve; eassumption.
+Qed.
+
+Lemma run_handlers_sound fuel d t act :
+  (forall h st R, agree st R ->
+     exists R', ract progs fuel R d h t (fst (act h st)) R' /\ agree (snd (act h st)) R') ->
+  forall hs st R, agree st R ->
+    exists R', rlist progs fuel R d t hs (fst (run_handlers act d hs st)) R' /\
+               agree (snd (run_handlers act d hs st)) R'.
+Proof.
+  intros Hact hs; induction hs as [|h hs IH]; intros st R Ha; cbn [run_handlers].
+  - exists R. split; [constructor|exact Ha].
+  - destruct (Hact h st R Ha) as (R1 & Hs1 & Ha1).
+    destruct (act h st) as [tr1 st1]. cbn [fst snd] in *.
+    destruct (IH st1 R1 Ha1) as (R2 & Hs2 & Ha2).
+    destruct (run_handlers act d hs st1) as [tr2 st2]. cbn [fst snd] in *.
+    exists R2. split; [|exact Ha2]. eapply RL_cons; eassumption.
+Qed.
+
+(* the model satisfies the spec, and keeps agreeing with the registration lists *)
+Theorem rserve_sound fuel : forall d, call_ok fuel d (fun st j t => rserve progs fuel st d j t).
+Proof.
+  induction fuel as [|fuel IH]; intros d st R i t Ha.
+  - cbn [rserve].
+    destruct (run_handlers_sound 0 d t (fun h st' => ([], st'))) with (hs := mux_serve (st i) t) (st := st) (R := R)
+      as (R' & Hl & Ha'); [ | exact Ha | ].
+    + intros h st0 R0 Ha0. exists R0. cbn [fst snd]. split; [|exact Ha0].
+      apply RA_skip. intros fuel' steps E; discriminate.
+    + exists R'. split; [|exact Ha']. eapply RS; [|exact Hl]. rewrite Ha. apply mux_dispatch.
+  - cbn [rserve].
+    match goal with |- context [run_handlers ?a d _ st] => set (act := a) end.
+    destruct (run_handlers_sound (S fuel) d t act) with (hs := mux_serve (st i) t) (st := st) (R := R)
+      as (R' & Hl & Ha'); [ | exact Ha | ].
+    + intros h st0 R0 Ha0. unfold act.
+      destruct (progs h) as [[trig steps]|] eqn:Ep.
+      * destruct (str_eqb trig t) eqn:Et.
+        -- apply str_eqb_eq in Et. subst trig.
+           destruct (run_steps_sound fuel d (fun st'' j t' => rserve progs fuel st'' (S d) j t') (IH (S d)) steps st0 R0 Ha0)
+             as (R1 & Hs & Ha1).
+           exists R1. split; [|exact Ha1]. eapply RA_run; [exact Ep|exact Hs].
+        -- apply str_eqb_neq in Et. exists R0. cbn [fst snd]. split; [|exact Ha0].
+           apply RA_skip. intros fuel' steps' _ E. rewrite Ep in E. injection E as E1 E2. contradiction.
+      * exists R0. cbn [fst snd]. split; [|exact Ha0].
+        apply RA_skip. intros fuel' steps' _ E. rewrite Ep in E. discriminate.
+    + exists R'. split; [|exact Ha']. eapply RS; [|exact Hl]. rewrite Ha. apply mux_dispatch.
+Qed.
+
+Scheme rspec_mind := Minimality for rspec Sort Prop
+  with rlist_mind := Minimality for rlist Sort Prop
+  with ract_mind := Minimality for ract Sort Prop
+  with rsteps_mind := Minimality for rsteps Sort Prop.
+Combined Scheme rspec_mutind from rspec_mind, rlist_mind, ract_mind, rsteps_mind.
+
+Definition item_depth (x : titem) : nat := match x with TInv d _ => d | TReg d _ => d end.
+
+Lemma invs_at_app d a b : invs_at d (a ++ b) = invs_at d a ++ invs_at d b.
+Proof. unfold invs_at. apply flat_map_app. Qed.
+
+(* items that are deeper, or registrations at any depth, contribute no invocation at depth d *)
+Definition no_inv_at (d : nat) (tr : list titem) : Prop :=
+  forall x, In x tr -> match x with TInv d' _ => (d < d')%nat | TReg _ _ => True end.
+
+Lemma invs_at_none d tr : no_inv_at d tr -> invs_at d tr = [].
+Proof.
+  unfold invs_at. induction tr as [|x tr IH]; intros H; [reflexivity|].
+  cbn [flat_map]. rewrite IH by (intros y Hy; apply H; right; exact Hy).
+  specialize (H x (or_introl eq_refl)). destruct x as [d' h|d' b]; [|reflexivity].
+  destruct (Nat.eqb d' d) eqn:E; [apply Nat.eqb_eq in E; lia|reflexivity].
+Qed.
+
+Definition all_ge (d : nat) (tr : list titem) : Prop :=
+  forall x, In x tr -> match x with TInv d' _ => (d <= d')%nat | TReg _ _ => True end.
+
+(* The clause of the property for a Serve whose handlers register and dispatch: the call's own
+   invocations are exactly the handlers selected for ITS topic among the registrations present
+   WHEN IT STARTED (R, not R'), in registration order. *)
+Lemma rspec_outer_all :
+  (forall fuel R d i t tr R', rspec progs fuel R d i t tr R' ->
+     all_ge d tr /\ select_rel t (R i) (invs_at d tr)) /\
+  (forall fuel R d t hs tr R', rlist progs fuel R d t hs tr R' ->
+     all_ge d tr /\ invs_at d tr = hs) /\
+  (forall fuel R d h t sub R', ract progs fuel R d h t sub R' -> no_inv_at d sub) /\
+  (forall fuel R d steps sub R', rsteps progs fuel R d steps sub R' -> no_inv_at d sub).
+Proof.
+  apply rspec_mutind.
+  - intros fuel R d i t hs tr R' Hsel _ [Hge Hp]. split; [exact Hge|]. rewrite Hp. exact Hsel.
+  - intros fuel R d t. split; [intros x []|reflexivity].
+  - intros fuel R d t h hs sub tr R1 R2 _ Hsub _ [Hge Hp]. split.
+    + intros x [<-|Hx]; [cbn; lia|]. apply in_app_or in Hx as [Hx|Hx].
+      * apply Hsub in Hx. destruct x; [lia|exact I].
+      * apply Hge; exact Hx.
+    + change (TInv d h :: sub ++ tr) with ([TInv d h] ++ sub ++ tr).
+      rewrite !invs_at_app, (invs_at_none d sub Hsub), Hp.
+      unfold invs_at. cbn [flat_map]. rewrite Nat.eqb_refl. reflexivity.
+  - intros fuel R d h t _ x [].
+  - intros fuel' R d h t steps sub R' _ _ Hs. exact Hs.
+  - intros fuel R d x [].
+  - intros fuel R d j f h b r tr R1 R2 _ _ _ Hr x [<-|Hx]; [exact I|apply Hr; exact Hx].
+  - intros fuel R d j t r tr1 tr2 R1 R2 _ [Hge _] _ Hr x Hx. apply in_app_or in Hx as [Hx|Hx].
+    + apply Hge in Hx. destruct x; [lia|exact I].
+    + apply Hr; exact Hx.
+Qed.
+
+Theorem rspec_outer fuel R d i t tr R' :
+  rspec progs fuel R d i t tr R' -> select_rel t (R i) (invs_at d tr).
+Proof. intros H. apply (proj1 rspec_outer_all) in H. apply H. Qed.
+
+(* histories *)
+Theorem rmuxes_run_hist fuel ops : forall st R, agree st R -> rhist progs fuel R ops (rmuxes_run progs fuel st ops).
+Proof.
+  induction ops as [|[i f h|i t] ops IH]; intros st R Ha; cbn [rmuxes_run].
+  - constructor.
+  - eapply RH_handle; [apply is_some_valid | apply radd_fun_ok | apply IH; apply agree_upd; exact Ha].
+  - destruct (rserve_sound fuel 0 st R i t Ha) as (R1 & Hs & Ha1).
+    destruct (rserve progs fuel st 0 i t) as [tr st1]. cbn [fst snd] in *.
+    eapply RH_serve; [exact Hs | apply IH; exact Ha1].
+Qed.
+
+Corollary rmuxes_run_hist_empty fuel ops :
+  rhist progs fuel (fun _ => []) ops (rmuxes_run progs fuel muxes_empty ops).
+Proof. apply rmuxes_run_hist. intros j; reflexivity. Qed.
+
+End Registering.
+
+(* what the unchanged code does with a handler registered during a Serve: handler 0 (on "a"),
+   given "a", registers handler 7 on "a" on its own mux and then serves "a" again.
+   The outer Serve invokes only handler 0 (7 is not in the slice it ranges over); the nested Serve,
+   started after the registration, invokes 0 and 7; a later Serve invokes both as well. *)
+Example ex_register_during_serve :
+  let progs := fun h => match h with O => Some ([97], [HsHandle 0 [97] 7; HsServe 0 [97]]) | _ => None end in
+  rmuxes_run progs 1 muxes_empty [OpHandle 0 [97] 0; OpServe 0 [97]; OpServe 0 [98]; OpServe 0 [97]]
+  = [RvHandle true;
+     RvServe [TInv 0 0; TReg 0 true; TInv 1 0; TInv 1 7];
+     RvServe [];
+     RvServe [TInv 0 0; TReg 0 true; TInv 1 0; TInv 1 7; TInv 1 7; TInv 0 7]]%nat.
+Proof. reflexivity. Qed.
+
+
+Section Fn.
+Variable progs : nat -> hprog.
+
+Definition peq (A B : nat -> list (str * nat)) : Prop := forall k, A k = B k.
+
+Lemma radd_peq R S j r R1 S1 : peq R S -> radd R j r R1 -> radd S j r S1 -> peq R1 S1.
+Proof. intros H H1 H2 k. rewrite H1, H2, H. reflexivity. Qed.
+
+Lemma rspec_functional_all :
+  (forall fuel R d i t tr R', rspec progs fuel R d i t tr R' ->
+     forall S tr2 S', peq R S -> rspec progs fuel S d i t tr2 S' -> tr = tr2 /\ peq R' S') /\
+  (forall fuel R d t hs tr R', rlist progs fuel R d t hs tr R' ->
+     forall S tr2 S', peq R S -> rlist progs fuel S d t hs tr2 S' -> tr = tr2 /\ peq R' S') /\
+  (forall fuel R d h t sub R', ract progs fuel R d h t sub R' ->
+     forall S sub2 S', peq R S -> ract progs fuel S d h t sub2 S' -> sub = sub2 /\ peq R' S') /\
+  (forall fuel R d steps sub R', rsteps progs fuel R d steps sub R' ->
+     forall S sub2 S', peq R S -> rsteps progs fuel S d steps sub2 S' -> sub = sub2 /\ peq R' S').
+Proof.
+  apply (rspec_mutind progs).
+  - intros fuel R d i t hs tr R' Hsel _ IH S tr2 S' He H2.
+    inversion H2 as [? ? ? ? ? hs2 ? ? Hsel2 Hl2]; subst.
+    rewrite <- (He i) in Hsel2. rewrite (select_rel_functional _ _ _ _ Hsel2 Hsel) in Hl2.
+    eapply IH; eassumption.
+  - intros fuel R d t S tr2 S' He H2. inversion H2; subst. split; [reflexivity|exact He].
+  - intros fuel R d t h hs sub tr R1 R2 _ IHa _ IHl S tr2 S' He H2.
+    inversion H2 as [|? ? ? ? ? ? sub2 tr2' S1 ? Ha2 Hl2]; subst.
+    destruct (IHa _ _ _ He Ha2) as [-> He1]. destruct (IHl _ _ _ He1 Hl2) as [-> He2].
+    split; [reflexivity|exact He2].
+  - intros fuel R d h t Hno S sub2 S' He H2.
+    inversion H2 as [|fuel' ? ? ? ? steps ? ? Ep Hs]; subst; [split; [reflexivity|exact He]|].
+    exfalso. eapply Hno; [reflexivity|exact Ep].
+  - intros fuel' R d h t steps sub R' Ep _ IH S sub2 S' He H2.
+    inversion H2 as [? ? ? ? ? Hno|? ? ? ? ? steps2 ? ? Ep2 Hs2]; subst.
+    + exfalso. eapply Hno; [reflexivity|exact Ep].
+    + rewrite Ep in Ep2. injection Ep2 as <-. eapply IH; eassumption.
+  - intros fuel R d S sub2 S' He H2. inversion H2; subst. split; [reflexivity|exact He].
+  - intros fuel R d j f h b r tr R1 R2 Hb Hadd _ IH S sub2 S' He H2.
+    inversion H2 as [|? ? ? ? ? ? b2 ? tr2 S1 ? Hb2 Hadd2 Hs2|]; subst.
+    destruct (IH _ _ _ (radd_peq _ _ _ _ _ _ He Hadd Hadd2) Hs2) as [-> He2].
+    split; [|exact He2]. f_equal. f_equal.
+    destruct b, b2; try reflexivity.
+    + symmetry. apply Hb2. apply Hb. reflexivity.
+    + apply Hb. apply Hb2. reflexivity.
+  - intros fuel R d j t r tr1 tr2 R1 R2 _ IH1 _ IH2 S sub2 S' He H2.
+    inversion H2 as [| |? ? ? ? ? ? tr1' tr2' S1 ? Hs1 Hs2]; subst.
+    destruct (IH1 _ _ _ He Hs1) as [-> He1]. destruct (IH2 _ _ _ He1 Hs2) as [-> He2].
+    split; [reflexivity|exact He2].
+Qed.
+
+(* the spec determines the trace of every Serve of a history *)
+Theorem rhist_functional fuel ops : forall R S evs1 evs2, peq R S ->
+  rhist progs fuel R ops evs1 -> rhist progs fuel S ops evs2 -> evs1 = evs2.
+Proof.
+  induction ops as [|o ops IH]; intros R S evs1 evs2 He H1 H2.
+  - inversion H1; inversion H2; reflexivity.
+  - inversion H1 as [|? i f h b R1 ? evs1' Hb Hadd Hh|? i t tr R1 ? evs1' Hs Hh]; subst.
+    + inversion H2 as [|? ? ? ? b2 S1 ? evs2' Hb2 Hadd2 Hh2|]; subst.
+      f_equal.
+      * f_equal. destruct b, b2; try reflexivity.
+        -- symmetry. apply Hb2. apply Hb. reflexivity.
+        -- apply Hb. apply Hb2. reflexivity.
+      * eapply IH; [|exact Hh|exact Hh2]. eapply radd_peq; eassumption.
+    + inversion H2 as [| |? ? ? tr2 S1 ? evs2' Hs2 Hh2]; subst.
+      destruct (proj1 rspec_functional_all _ _ _ _ _ _ _ Hs _ _ _ He Hs2) as [-> He1].
+      f_equal. eapply IH; eassumption.
+Qed.
+
+(* so comparing an observed history with the model's output IS evaluating the spec *)
+Theorem rhist_decided fuel ops evs :
+  rhist progs fuel (fun _ => []) ops evs <-> evs = rmuxes_run progs fuel muxes_empty ops.
+Proof.
+  split.
+  - intros H. eapply rhist_functional; [intros k; reflexivity | exact H | apply rmuxes_run_hist_empty].
+  - intros ->. apply rmuxes_run_hist_empty.
+Qed.
+End Fn.
